@@ -313,7 +313,7 @@ fn main() {
                             let mut got: Vec<String> = items.iter().map(|i| format!("{}:{:?}", i.label, i.kind)).collect();
                             got.sort();
                             // (a value of the library's record R - `acc.mk().f` - has the single field f)
-                            let exp: Vec<String> = if t.tg >= 2000 { vec!["f:Field".to_string()] } else { case["fields"].as_array().map(|a| a.iter().map(|x| format!("{}:Field", x.as_str().unwrap())).collect()).unwrap_or_default() };
+                            let exp: Vec<String> = if t.tg == 0 { vec![] /* a value of unknown type has no fields */ } else if t.tg >= 2000 { vec!["f:Field".to_string()] } else { case["fields"].as_array().map(|a| a.iter().map(|x| format!("{}:Field", x.as_str().unwrap())).collect()).unwrap_or_default() };
                             if got != exp {
                                 local.push(json!({"kind": "mismatch", "prop": "C18",
                                     "features": {"what": "record fields", "ctx": t.ctx.join("/"), "inner": t.ctx.last().cloned().unwrap_or_default(),
